@@ -71,6 +71,19 @@ CLAIMED.update({
     ref="DESIGN.md §4 C15"),
 })
 
+CLAIMED.update({
+  "C02": dict(
+    text="Static provenance analysis: the pairing (document, URL that served it) / (object, validated id) is shown to stay intact from the socket to the item constructors. Every call of an item constructor is shown to receive results #0/#1 of one checked client.FetchUnknown call (or the stored parent pair under its error guard); a backward walk over the value-flow graph shows every source handed to FetchUnknown to be nil or an item's id field, itself stored only from the constructor's validated id, and embedded values to be taken from the constructor's own object with its own id; all ~90 acyclic paths of FetchUnknown to a success return are enumerated with phi operands resolved along the path, and on each the returned id is shown to be nil or to be the id of the returned object whose paired serving URL is known non-nil with an equal Host; FetchURL is shown to return one intact bundle of one jtp.Get call keyed by the URL; jtp.Get/FetchURL/FetchFromFile/ResolveWebfinger have only their documented callers. Necessary conditions over all paths: breaking any lets host A supply host B's object.",
+    note="Trusted: singleflight returns the value for the same key; url.URL.Host is the dialled authority. Not decided: multi-host behaviour end to end; Host normalisation and case (library URL semantics); cache-state interactions beyond C03.R6.",
+    technique="static provenance (def-use pairing), exhaustive path enumeration with phi resolution in the gatekeeper, backward value-flow walk, who-may-call",
+    ref="DESIGN.md §4 C02"),
+  "C09": dict(
+    text="Static path-fact rules on the three membership gatekeepers: for the outbox and reply construct closures every return is shown to be either a NewFailure item (never nil: impostors stay in place as error items) or the item built by NewActivity/NewPost from the element handed in, on a path that knows owner id != nil, accessor() != nil and accessor().String() == id.String(); the "outbox"/"replies"/"comments" collections are shown to be built with the matching closure and the owner's id, Collection.construct to be stored only from the constructor parameter, harvest to deliver construct(elements[k], c.id) at its own slot and to pass construct on to the next page; NewPostFromObject's success return is shown to lie behind a loop over all creators (after the fan-out joined) in which every path back to the loop head knows equal hosts with both ids non-nil, or both ids nil; identifier accessors return validated id fields under their error guards, and id fields are stored only from the constructors' id parameter.",
+    note="Assumes the ids compared are the validated ids of C02. Not decided: generated worlds end to end; whether string equality of URLs is the right identity.",
+    technique="static path facts (dominating comparisons on accepting paths) in gatekeeper closures, wiring/table agreement, path enumeration in the creators loop",
+    ref="DESIGN.md §4 C09"),
+})
+
 NOT_APPLICABLE = {
   "C13": "content preservation / line-length bounds of Wrap, DumbWrap, Pad, Indent, Snip are relations between input and output string values for all strings and widths; no sound static argument over the code's shape decides them (DESIGN.md §5)",
   "C14": "per-character attribute sets after arbitrary nesting and layout are string values; the structural facts available (single SGR emitter) are not necessary conditions of this property (DESIGN.md §5)",
